@@ -15,12 +15,6 @@ def cases(tier, rng, dist):
 
 
 def generated(tier):
-    """G3: the p-value tables re-read from /repo's current source text, translated to Gallina and proved equal to the
-    tables of Lib/TailTables.v (which are the models' p-value functions)"""
-    from ..translate import tables
-    try:
-        text, detail = tables.generate(only=[('core', 'two_sample_core'), ('core', 'one_sample'), ('core', 'corr'), ('stratified', 'sim_corr'), ('stratified', 'stratified_permutationtest'), ('stratified', 'stratified_two_sample')])
-    except Exception as e:      # fail closed: an unknown construct in the source is a broken obligation
-        text = "(* translator could not read the table: " + repr(e)[:300].replace("*)", "* )") + " *)\nTheorem table_translated : False.\nProof. Qed.\n"
-        detail = [{"error": repr(e)[:300]}]
-    return [{"name": "C05_G3_tables", "file": "C05_G3_tables.v", "text": text, "detail": detail, "cls": "source:pvalue-table"}]
+    """source-derived obligations (G3 tables / G4 formulas): regenerated from /repo's current source text on every run"""
+    from ..translate.tables import obligations
+    return obligations("C05")
